@@ -7,7 +7,7 @@ import time
 
 HERE = os.path.dirname(os.path.abspath(__file__))
 VERIF = os.path.dirname(HERE)
-BUILD = os.path.join(VERIF, 'build')
+BUILD = os.environ.get('VERIF_BUILD') or os.path.join(VERIF, 'build')     # VERIF_BUILD: a private scratch dir for development runs
 REPO = os.environ.get('VERIF_REPO', '/repo')
 BIN = os.path.join(BUILD, 'native-target', 'debug', 'zerv-native-driver')
 
